@@ -603,12 +603,18 @@ def r00(ctx, repo, files=None):
                             'the returned samples are a partial permutation, '
                             'not independent draws from the distribution' % (
                                 U(c)[:50], U(k.value)[:30]))
-        # L23: a value is computed into a local and never read (flow
-        # sensitive: the name is re-bound or the function ends first) — the
-        # update that was meant to happen is lost
+        # L23: lost update — a local is re-computed from its own previous
+        # value and the result is never read (flow sensitive: the name is
+        # re-bound or the function ends first)
         for st, nm in dead_stores(fn):
             if _abstract_rhs(st.value) in DEAD_STORE_OK.get(
                     (cls, fn.name), {}):
+                continue
+            # only *lost updates*: the dead value was computed from the
+            # name's own previous value (`v = v + g` on a view, `x = x.T`);
+            # a plain unused temporary changes nothing
+            if not any(isinstance(x, ast.Name) and x.id == nm
+                       for x in ast.walk(st.value)):
                 continue
             bad += 1
             ctx.violation(
